@@ -163,6 +163,10 @@ def pool_materials():
     for n in ("2048-a", "2048-b", "3072-a", "4096-a", "2048-e800001", "2048-e100000001"):
         mats.append(("rsa", f"rsa-{n}", {"spki": (common.KEYS / f"rsa-{n}.spki.der").read_bytes(),
                                         "pk8": (common.KEYS / f"rsa-{n}.pk8.der").read_bytes()}))
+    # RSA public keys of 48 sizes (2048, 2056, .. 2424 bits, made by OpenSSL): the length of the DER encoding, and with
+    # it the length of the last line of the PEM text, takes every residue
+    for f in sorted(common.KEYS.glob("rsa-sz*.spki.der")):
+        mats.append(("rsa", f.name.split(".")[0], {"spki": f.read_bytes()}))
     return mats
 
 
